@@ -14,7 +14,9 @@ def main():
     pid, var = sys.argv[1], sys.argv[2]
     run_all = "--all" in sys.argv
     wt = f"/tmp/wt/{pid}"
-    if not os.path.isdir(f"{wt}/SEED/{var}") and os.path.isdir(f"/tmp/wt/T_{pid}/SEED/{var}"):
+    if not os.path.isdir(f"{wt}/SEED/{var}") and os.path.isdir(f"/tmp/wt/U_{pid}/SEED/{var}"):
+        wt = f"/tmp/wt/U_{pid}"  # round-4 worktrees
+    elif not os.path.isdir(f"{wt}/SEED/{var}") and os.path.isdir(f"/tmp/wt/T_{pid}/SEED/{var}"):
         wt = f"/tmp/wt/T_{pid}"  # round-3 worktrees
     sd = f"{wt}/SEED/{var}"
     out = {"property": pid, "variant": var}
